@@ -44,6 +44,9 @@ type Options struct {
 	// one child process per command, against the node's REST API on a loopback port; operations and
 	// results travel as the JSON files the tools write. Falls back to ViaHTTP when no binary was built.
 	ViaCLI bool
+	// OddNames: participants are called by names from a zoo of legal but unusual user names (case
+	// variants of each other, inner and outer whitespace, non-ASCII, long, numeric) instead of node_<i>.
+	OddNames bool
 }
 
 type World struct {
@@ -96,6 +99,9 @@ func NewWorld(opt Options) (*World, error) {
 			return nil, err
 		}
 		w.Dir = d
+	}
+	if opt.OddNames && len(opt.Names) == 0 {
+		opt.Names = OddNames(opt.N, opt.Seed)
 	}
 	for i := 0; i < opt.N; i++ {
 		name := fmt.Sprintf("node_%d", i)
@@ -568,4 +574,18 @@ func fileNamesOK(data map[string][]byte) bool {
 		}
 	}
 	return true
+}
+
+// (the repository requires 3..150 bytes and uniqueness, nothing else)
+var nameZoo = []string{"Alice", "alice", "ALICE", "bob smith", " lead", "trail ", "ünï-çødé", "验证者", "000", "0000", "node_0", "Node_0", "a.b/c", "x\ty", strings.Repeat("long", 37), "---", "null", "true", "{ }", "a\"b", "nul\x00l"}
+
+// OddNames picks n distinct names from the zoo, determined by seed.
+func OddNames(n int, seed uint64) []string {
+	r := sched.Derive(seed, 0x2A2E)
+	p := r.Perm(len(nameZoo))
+	var out []string
+	for i := 0; i < n && i < len(p); i++ {
+		out = append(out, nameZoo[p[i]])
+	}
+	return out
 }
